@@ -287,8 +287,16 @@ fn next_up(x: f64) -> f64 {
     }
 }
 
+fn next_down(x: f64) -> f64 {
+    -next_up(-x)
+}
+
 fn pick_init(rng: &mut Rng, lo: f64, hi: f64) -> f64 {
-    match rng.below(16) {
+    match rng.below(18) {
+        // one unit in the last place OUTSIDE the bracket (a slack in the up-front check, absolute or relative,
+        // accepts these)
+        16 => next_down(lo),
+        17 => next_up(hi),
         0 => lo,
         1 => hi,
         2 | 3 | 4 => (lo + hi) / 2.0,
@@ -378,7 +386,7 @@ pub fn generate(seed: u64, thorough: bool, emit: &mut dyn FnMut(String)) {
             for text in ["x^2 - 4", "x^3 - 3x^2 + 2x", "2x - 3"] {
                 let p = AnyPoly::S(SimplePolynomial::parse(text).unwrap());
                 for mode in ["root", "extrema"] {
-                    emit(format!("bisect {} {} {} {} {} {cap} {mode}", req_any(&p), rbits(0.25), rbits(1.0), rbits(3.5), rbits(1e-6)));
+                    emit(format!("bisect {} {} {} {} {} {cap} {mode}", req_any(&p), rbits(0.25), rbits(1.0), rbits(3.5), rbits(1e-7)));
                 }
             }
         }
@@ -469,6 +477,253 @@ pub fn generate(seed: u64, thorough: bool, emit: &mut dyn FnMut(String)) {
                 let tol = pick_tol(&mut rng, false);
                 let itermax = pick_itermax(&mut rng).min(if rng.chance(1, 2) { 300 } else { 5000 });
                 emit_req(emit, &p, lo, init, hi, tol, itermax, extrema);
+            }
+        }
+    }
+    generate_hardening(seed, thorough, emit);
+}
+
+// ---------------------------------------------------------------- hardening families (scale, size, ties, rare paths)
+
+/// the same coefficients under another variable name / an absent variable (the solver must not care)
+pub fn as_kind_named(cs: &[f64], simple: bool, rng: &mut Rng) -> AnyPoly {
+    match as_kind(cs, simple, rng) {
+        AnyPoly::S(mut q) => {
+            q.variable = *rng.pick(&[Some('x'), Some('y'), Some('t'), Some('λ'), Some('X'), None]);
+            AnyPoly::S(q)
+        }
+        AnyPoly::I(mut q) => {
+            let name = *rng.pick(&["x", "y", "t", "λ", "X", "ab"]);
+            for t in q.terms.iter_mut() {
+                for v in t.variables.iter_mut() {
+                    v.0 = name.to_string();
+                }
+            }
+            for v in q.variables.iter_mut() {
+                *v = name.to_string();
+            }
+            AnyPoly::I(q)
+        }
+    }
+}
+
+/// initial guesses relative to the scale `s` of the bracket
+fn pick_init_scaled(rng: &mut Rng, lo: f64, hi: f64, s: f64) -> f64 {
+    match rng.below(14) {
+        0 => lo,
+        1 => hi,
+        2 | 3 => lo / 2.0 + hi / 2.0,
+        4 => next_down(lo),
+        5 => next_up(hi),
+        6 => lo - s * 10f64.powi(-(rng.range(1, 17) as i32)),
+        7 => hi + s * 10f64.powi(-(rng.range(1, 17) as i32)),
+        8 => lo - lo.abs() * 10f64.powi(-(rng.range(1, 15) as i32)),
+        9 => hi + hi.abs() * 10f64.powi(-(rng.range(1, 15) as i32)),
+        10 => next_up(lo),
+        11 => next_down(hi),
+        _ => lo + (hi - lo) * rng.unit(),
+    }
+}
+
+pub fn distinct_mantissas(rng: &mut Rng, n: usize, pool: &[f64]) -> Vec<f64> {
+    let mut out: Vec<f64> = Vec::new();
+    let mut guard = 0;
+    while out.len() < n && guard < 200 {
+        guard += 1;
+        let m = *rng.pick(pool);
+        if !out.contains(&m) {
+            out.push(m);
+        }
+    }
+    out
+}
+
+fn generate_hardening(seed: u64, thorough: bool, emit: &mut dyn FnMut(String)) {
+    let mut rng = Rng::new(seed ^ 0xC06_5CA1E);
+    // ---- (1) the whole problem at another scale: roots, bracket and initial guess all of size s, for every decade
+    //      1e-20..1e20 and every binade 2^-70..2^60; the amplitude of g is chosen so that the residual gate sometimes
+    //      passes and sometimes fails.  Absolute thresholds (a bracket "narrower than 1e-12", a step "below EPSILON", a
+    //      gate made relative to |x|, an absolute slack in the up-front check) only show here.
+    let n = if thorough { 130_000 } else { 4200 };
+    for i in 0..n {
+        let simple = rng.chance(1, 2);
+        let extrema = rng.chance(1, 5);
+        let (s, s_exact) = if i % 2 == 0 {
+            (10f64.powi(((i / 2) % 41) as i32 - 20), false)
+        } else {
+            (2f64.powi(((i / 2) % 131) as i32 - 70), true)
+        };
+        let nroots = 1 + rng.below(3) as usize;
+        let pool: &[f64] = if s_exact { &[1.0, -1.0, 2.5, -3.0, 0.75, 4.0, -0.5, 0.0, 6.0] } else { &[1.0, -1.0, 2.5, -3.0, 0.7, 4.1, -0.5, 0.0, 6.0] };
+        let ms = distinct_mantissas(&mut rng, nroots, pool);
+        let roots: Vec<f64> = ms.iter().map(|m| m * s).collect();
+        // g(x) = amp * c0 * prod (x - r_i) / s^(n-1): |g'| at the roots is about amp
+        let amp = match rng.below(8) {
+            0 | 1 | 2 => 1.0,
+            3 => 1e-3,
+            4 => 1e3,
+            5 => 1.0 / s,
+            6 => s,
+            _ => 10f64.powi(rng.range(-6, 6) as i32),
+        };
+        let c0 = *rng.pick(&[1.0, -1.0, 2.0, 0.5, -3.0]);
+        let unit = expand_roots(1.0, &ms);
+        let mut g: Vec<f64> = unit.iter().enumerate().map(|(k, a)| amp * c0 * a * s * s.powi(-(k as i32))).collect();
+        if g.iter().any(|c| !c.is_finite()) {
+            g = expand_roots(c0, &roots);
+        }
+        if rng.chance(1, 6) {
+            // a factor without real roots, at the same scale
+            let q = times_quadratic(&g, s * s * rng.uniform(0.2, 3.0));
+            if q.iter().all(|c| c.is_finite()) {
+                let inv = 1.0 / (s * s);
+                g = q.iter().map(|c| c * inv).collect();
+            }
+        }
+        let r = *rng.pick(&roots);
+        let u = |rng: &mut Rng| rng.uniform(0.05, 3.0);
+        let tiny = |rng: &mut Rng| 10f64.powi(-(rng.range(1, 16) as i32));
+        let (a, b) = match rng.below(10) {
+            0 => (r, r + s * u(&mut rng)),
+            1 => (r - s * u(&mut rng), r),
+            2 => {
+                let w = if r == 0.0 { s * tiny(&mut rng) } else { r.abs() * tiny(&mut rng) };
+                (r - w, r + w)
+            }
+            3 | 4 => (r - s * u(&mut rng), r + s * u(&mut rng)),
+            5 => {
+                // a tiny bracket somewhere else (no root inside, most of the time)
+                let a = s * rng.uniform(-5.0, 5.0);
+                (a, a + a.abs().max(s) * tiny(&mut rng))
+            }
+            6 => {
+                let x = s * 10f64.powi(rng.range(0, 6) as i32) * rng.uniform(1.0, 9.0);
+                (-x, x * rng.uniform(0.5, 1.5))
+            }
+            7 => (0.0f64.min(2.0 * r), 0.0f64.max(2.0 * r)),
+            8 => (r, r),
+            _ => (r - s * tiny(&mut rng), r + s * tiny(&mut rng) * 3.0),
+        };
+        let (lo, hi) = if rng.chance(1, 14) { (b, a) } else { (a, b) };
+        let cs = if extrema && rng.chance(2, 3) {
+            // p with p' = g up to rounding (the library differentiates p itself)
+            let mut p = vec![c0 * amp * s];
+            for (k, c) in g.iter().enumerate() {
+                p.push(*c / (k as f64 + 1.0));
+            }
+            p
+        } else {
+            g
+        };
+        let p = as_kind_named(&cs, simple, &mut rng);
+        let init = pick_init_scaled(&mut rng, lo, hi, s);
+        let tol = pick_tol(&mut rng, false);
+        let itermax = match rng.below(6) {
+            0 => pick_itermax(&mut rng),
+            1 => *rng.pick(&[60usize, 100, 200]),
+            _ => *rng.pick(&[2000usize, 3000, 5000]),
+        };
+        emit_req(emit, &p, lo, init, hi, tol, itermax, extrema);
+    }
+    // ---- (2) completeness at every scale of the ROOT: one root of size 10^-20..1 (or 2^-70..1) among roots of ordinary
+    //      size, g moderately scaled, sign change over the bracket, ample budget: a value must come back
+    let n = if thorough { 60_000 } else { 2000 };
+    for i in 0..n {
+        let simple = rng.chance(1, 2);
+        let extrema = rng.chance(1, 4);
+        let s = if i % 2 == 0 { 10f64.powi(-(((i / 2) % 21) as i32)) } else { 2f64.powi(-(((i / 2) % 71) as i32)) };
+        let r = s * *rng.pick(&[1.0, -1.0, 0.75, -0.5, 0.375]);
+        let mut roots = vec![r];
+        let others = rng.below(4) as usize;
+        for q in distinct_mantissas(&mut rng, others, &[1.0, -1.0, 2.0, -2.0, 3.0, -4.0, 5.0, -6.0]) {
+            roots.push(q);
+        }
+        let mut g = expand_roots(*rng.pick(&[1.0, -1.0, 2.0, 0.5, -0.25]), &roots);
+        if rng.chance(1, 5) {
+            g = times_quadratic(&g, rng.range(1, 4) as f64);
+        }
+        let (lo, hi) = match rng.below(6) {
+            0 => (r - rng.uniform(0.05, 0.9), r + rng.uniform(0.05, 0.9)),
+            1 => (r - r.abs() * rng.uniform(0.1, 0.9), r + r.abs() * rng.uniform(0.2, 5.0)),
+            2 => (r, r + rng.uniform(0.05, 0.9)),
+            3 => (r - rng.uniform(0.05, 0.9), r),
+            4 => (0.0f64.min(3.0 * r), 0.0f64.max(3.0 * r)),
+            _ => (r - rng.range(1, 7) as f64 / 8.0, r + rng.range(1, 7) as f64 / 8.0),
+        };
+        let x = lo.abs().max(hi.abs()).max(1.0);
+        moderate(&mut g, x, if extrema { 1.0 } else { 1000.0 });
+        let cs = if extrema { antiderivative840(&g, rng.range(-5, 5) as f64) } else { g };
+        let p = as_kind_named(&cs, simple, &mut rng);
+        let init = pick_init_scaled(&mut rng, lo, hi, s);
+        let tol = *rng.pick(&[1e-12, 1e-11, 1e-10, 1e-9, 1e-8]);
+        let itermax = *rng.pick(&[2000usize, 2048, 3000, 5000]);
+        emit_req(emit, &p, lo, init, hi, tol, itermax, extrema);
+    }
+    // ---- (3) degrees beyond 7 (8..24): loops over the coefficients that are blocked / unrolled / capped
+    let n = if thorough { 12_000 } else { 400 };
+    for i in 0..n {
+        let simple = rng.chance(1, 2);
+        let extrema = rng.chance(1, 4);
+        let deg = 8 + (i % 17) as usize;
+        let halves: Vec<f64> = (0..deg).map(|_| rng.range(-4, 4) as f64 / 2.0).collect();
+        let mut g = expand_roots(*rng.pick(&[1.0, -1.0, 0.5]), &halves);
+        let r = *rng.pick(&halves);
+        let (lo, hi) = match rng.below(4) {
+            0 => (r - 0.25, r + 0.125),
+            1 => (r, r + 0.25),
+            2 => (r - rng.uniform(0.01, 0.4), r + rng.uniform(0.01, 0.4)),
+            _ => (rng.uniform(-2.5, 0.0), rng.uniform(0.0, 2.5)),
+        };
+        moderate(&mut g, lo.abs().max(hi.abs()).max(1.0), 1000.0);
+        let p = as_kind_named(&g, simple, &mut rng);
+        let init = pick_init(&mut rng, lo, hi);
+        let tol = pick_tol(&mut rng, false);
+        emit_req(emit, &p, lo, init, hi, tol, *rng.pick(&[100usize, 2000, 3000]), extrema);
+    }
+    // ---- (4) exact ties, signed zeros, roots on both ends and on the midpoint, caps next to the integer limits
+    {
+        let polys: [&[f64]; 7] = [
+            &[0.0, 1.0],                  // x
+            &[0.0, -1.0, 0.0, 1.0],       // x^3 - x: roots -1, 0, 1
+            &[0.0, 0.0, 1.0],             // x^2
+            &[-0.0, 2.0],                 // 2x with a negative-zero constant
+            &[-4.0, 0.0, 1.0],            // x^2 - 4
+            &[0.0, -4.0, 0.0, 1.0],       // x^3 - 4x
+            &[6.0, -5.0, 1.0],            // (x-2)(x-3)
+        ];
+        let z = 0.0f64;
+        let brackets: [(f64, f64, f64); 16] = [
+            (-z, z, z), (-z, z, -z), (z, -z, z), (z, z, -z), (-1.0, 1.0, z), (-1.0, 1.0, -z), (z, z, 1.0), (-z, -z, 1.0),
+            (-1.0, -z, z), (-2.0, 2.0, 2.0), (-2.0, -2.0, 2.0), (-2.0, z, 2.0), (2.0, 2.5, 3.0), (2.0, 2.0, 3.0), (1.0, 2.0, 3.0),
+            (-1.0, -1.0, 3.0),
+        ];
+        for (pi, cs) in polys.iter().enumerate() {
+            for (bi, (lo, init, hi)) in brackets.iter().enumerate() {
+                if !thorough && (pi + bi) % 2 == 1 {
+                    continue;
+                }
+                for simple in [true, false] {
+                    let p = if simple { simple_of(cs) } else { inter_of(cs, bi % 2 == 0) };
+                    for extrema in [false, true] {
+                        for (tol, cap) in [(1e-9, 3000usize), (1e-3, 100), (0.0, 40)] {
+                            emit_req(emit, &p, *lo, *init, *hi, tol, cap, extrema);
+                        }
+                    }
+                }
+            }
+        }
+        let caps: [usize; 10] = [
+            u32::MAX as usize, (1usize << 32) + 1, (1usize << 32) - 2, 65535, 65536, 65537, (1usize << 31) + 3, i64::MAX as usize,
+            (i64::MAX as usize) + 2, usize::MAX - 7,
+        ];
+        for cap in caps {
+            for (cs, lo, hi) in [(&[-4.0, 0.0, 1.0][..], 0.25, 3.5), (&[0.0, 2.0, -3.0, 1.0][..], 0.25, 1.5), (&[-3.0, 2.0][..], -1.0, 7.0)] {
+                for simple in [true, false] {
+                    let p = if simple { simple_of(cs) } else { inter_of(cs, false) };
+                    for extrema in [false, true] {
+                        emit_req(emit, &p, lo, 1.0, hi, 1e-7, cap, extrema);
+                    }
+                }
             }
         }
     }
